@@ -334,7 +334,11 @@ impl<H: Header> DynSizedStructure<H> {
         let ptr = bytes.as_ptr().cast::<H>();
         let hdr = unsafe { &*ptr };
 
-        if hdr.payload_len() > bytes.len() {
+        // The whole structure (header + payload) must fit into the slice.
+        let fits = mem::size_of::<H>()
+            .checked_add(hdr.payload_len())
+            .is_some_and(|total_size| total_size <= bytes.len());
+        if !fits {
             return Err(MemoryError::InvalidReportedTotalSize);
         }
 
